@@ -152,7 +152,17 @@ def iterator_chain(view, next_bb):
             if len(wd) == 1 and wd[0][0] == "call":
                 it = view.origin_call(wd[0][1])
                 continue
+            al = [strip_refs(a) for a in view.alts(it)]
+            if len(al) == 1 and al[0] != it:
+                it = al[0]
+                continue
             break
+        if it[0] == "field":
+            # e.g. the iterator handed back by a helper through `?`: (Try::branch(r) as Continue).0 with r built in several arms
+            al = [strip_refs(a) for a in view.alts(it)]
+            if len(al) == 1 and al[0] != it:
+                it = al[0]
+                continue
         if it[0] == "call" and it[2]:
             c = view.callee(it[1])
             nm = None
@@ -247,7 +257,10 @@ def seq_rules(view, bs, coll, want_enumerate=True, label="sequence"):
         if base in ADDERS and i == 0:
             adds.append((bb, c, base))
         else:
-            out.append(finding("C06.SEQ", view, "the result collection is modified by %s (only push/insert of the element just deserialised is allowed)" % (base or "an indirect call"), bb))
+            if base is None or base in ("std::ops::FnMut::call_mut", "std::ops::FnOnce::call_once", "std::ops::Fn::call") or (c.fn is not None and c.krate == "deserr" and c.deserr_trait() is None):
+                out.append(_und("C06.SEQ", view, "the result collection is handed to %s, which this rule does not read" % (base or "a function value"), bb))
+            else:
+                out.append(finding("C06.SEQ", view, "the result collection is modified by %s (only push/insert of the element just deserialised is allowed)" % (base or "an indirect call"), bb))
     if not adds:
         out.append(_und("C06.SEQ", view, "no push/insert into the result collection found"))
     for bb, c, base in adds:
@@ -276,8 +289,11 @@ def seq_rules(view, bs, coll, want_enumerate=True, label="sequence"):
                 out.append(finding("C06.SEQ", view, "the payload iterator is adapted by %s (order/selection of elements may change)" % nm, nbb))
         srcc = canon(view, src)
         if not (srcc[0] == "field" and srcc[1] == ("param", 1) and srcc[2] in ("Sequence", "Map")):
-            if srcc[0] == "call" and view.callee(srcc[1]) is not None and view.callee(srcc[1]).krate == "deserr" and view.callee(srcc[1]).deserr_trait() is None:
-                out.append(_und("C06.SEQ", view, "what the loop iterates over comes out of a local function (%s)" % call_name(view, srcc), nbb, fmt(srcc)))
+            root_ = srcc
+            while root_[0] in ("field", "downcast", "deref", "ref") and len(root_) > 1 and isinstance(root_[1], tuple):
+                root_ = root_[1]
+            if root_[0] == "call" and view.callee(root_[1]) is not None and view.callee(root_[1]).krate == "deserr" and view.callee(root_[1]).deserr_trait() is None:
+                out.append(_und("C06.SEQ", view, "what the loop iterates over comes out of a local function (%s)" % call_name(view, root_), nbb, fmt(srcc)))
             else:
                 out.append(finding("C06.SEQ", view, "the loop does not iterate over the input's own %s" % label, nbb, fmt(srcc)))
     # at most one adder per loop
@@ -615,8 +631,13 @@ def c_option(view, bs):
             t = canon(view, term)
             is_none = t[0] == "agg" and t[1] == "adt" and t[3] == "std::option::Option" and t[4] == "None"
             is_some_of_child = False
+            some_arg = None
             if t[0] == "agg" and t[1] == "adt" and t[3] == "std::option::Option" and t[4] == "Some" and t[2]:
-                ch0 = child_ok_payload(view, bs, t[2][0])
+                some_arg = t[2][0]
+            elif t[0] == "call" and (call_name(view, t) or "").endswith("::Some") and t[3]:
+                some_arg = t[3][0]      # `Some` used as a function value
+            if some_arg is not None:
+                ch0 = child_ok_payload(view, bs, some_arg)
                 if ch0 is not None and canon(view, ch0["loc"]) == ("param", 2) and not (bb in null_region and _only_via(view, bb, null_t)):
                     is_some_of_child = True   # `match T::deserialize(value, location) { Ok(x) => Ok(Some(x)), Err(e) => Err(e) }`, or with `?`
             if is_none:
